@@ -149,6 +149,9 @@ class sptensor:
             shape = parse_shape(shape)
 
         if subs.size > 0:
+            assert (
+                vals.shape[0] == subs.shape[0]
+            ), "Number of subscripts and values must be equal"
             assert subs.shape[1] == len(shape) and np.all(
                 (np.max(subs, axis=0) + 1) <= shape
             ), (
